@@ -293,7 +293,7 @@ fn gen_unamb(g: &mut Gen, kind: i128, year_abs_lt: i128) -> Vec<Item> {
                 'y' => *pw >= 5, 'M' | 'd' | 'w' | 'H' | 'K' | 'h' | 'k' | 'm' | 's' => *pw == 2, 'D' => *pw == 3, 'n' => true, _ => false },
             _ => false };
         if i > 0 && !glued {
-            if g.rng.chance(1, 6) { out.push(Item::Quoted(" at ".to_string())); last_sep = '\''; }
+            if g.rng.chance(1, 6) { out.push(Item::Quoted(g.rng.pick(&[" at ", " at ", "\u{5e74}", " \u{e0}s ", " \u{2013} ", "T\u{1f600}"]).to_string())); last_sep = '\''; }
             else { let mut c = *g.rng.pick(&seps); if c == last_sep { c = if c == '|' { '_' } else { '|' }; }
                    if c == ':' && matches!(fields[i - 1], Item::Field('X', _) | Item::Field('x', _)) { c = if last_sep == ',' { '|' } else { ',' }; }
                    // sometimes a literal sharing its low byte with the letter of the field before it
@@ -463,7 +463,8 @@ pub fn gen_c14(g: &mut Gen, tier: &str) {
     while idx < total {
         let kind = idx % 3; let rest = idx / 3;
         let inp = &inputs[rest % inputs.len()]; let rest = rest / inputs.len();
-        let w = 1 + rest % 5; let sym = all_syms[(rest / 5) % all_syms.len()];
+        // widths 1..=5, and one time in four an over-long run of 6..=10 letters
+        let w = if g.rng.chance(1, 4) { 6 + rest % 5 } else { 1 + rest % 5 }; let sym = all_syms[(rest / 5) % all_syms.len()];
         let pat: String = std::iter::repeat(sym).take(w).collect();
         g.push(true, Input::with_strs("parse", vec![kind as i128, now_year], vec![inp.clone(), pat]));
         idx += stride;
